@@ -26,6 +26,15 @@ pub fn run_main(generate: fn(&str, u64) -> Vec<Rec>, exec: fn(&Rec) -> Out) {
             }
             eprintln!("harness: {} records", recs.len());
         }
+        "list" => {
+            // inputs only (no execution): lets the checker find the record on which the implementation dies with a signal
+            let tier = &args[2];
+            let seed: u64 = args[3].parse().unwrap();
+            let mut f = std::io::BufWriter::new(std::fs::File::create(&args[4]).unwrap());
+            for r in &generate(tier, seed) {
+                writeln!(f, "{}", r.line(&Ok(vec![]))).unwrap();
+            }
+        }
         "exec" => {
             let inp = std::io::BufReader::new(std::fs::File::open(&args[2]).unwrap());
             let mut f = std::io::BufWriter::new(std::fs::File::create(&args[3]).unwrap());
@@ -38,7 +47,7 @@ pub fn run_main(generate: fn(&str, u64) -> Vec<Rec>, exec: fn(&Rec) -> Out) {
             }
         }
         _ => {
-            eprintln!("usage: <bin> gen <tier> <seed> <out> | exec <in> <out>");
+            eprintln!("usage: <bin> gen <tier> <seed> <out> | list <tier> <seed> <out> | exec <in> <out>");
             std::process::exit(2);
         }
     }
